@@ -203,6 +203,59 @@ theorem runCalls_walk (h : PhInv env inp I J) (cs : List Call) (ab ab' : Ab) (ha
             | endOfInput k => simp only [hs] at hact
         exact ih ab1 habs hq.2 _ hI
 
+/-- an action list started in phase `ab0` (not necessarily the label of the state: the tail of a list) -/
+theorem runSeq_walk' (h : PhInv env inp I J) (q : ActSeq) (self : StateId) (ab0 ab' : Ab)
+    (hq : callsOk q.calls = true) (habs : phCalls q.calls ab0 = some ab') (hp : transOk env.tbl P self ab' q.trans = true)
+    (m : M κ) (hm : I ab0 m) (hst : m.c.state = self) :
+    WalkPost P I J ((runSeq env inp q m).1, (runSeq env inp q m).2.1) ∧
+    ((runSeq env inp q m).2.1 = none → (runSeq env inp q m).2.2 = .fell → (runSeq env inp q m).1.c.state = self) := by
+  have hc := runCalls_walk h q.calls _ _ habs hq m hm
+  have hstate := runCalls_state (env := env) (inp := inp) q.calls m
+  unfold runSeq
+  dsimp only
+  cases hrs : (runCalls env inp q.calls m).2 with
+  | some sig =>
+    simp only [hrs] at hc ⊢
+    refine ⟨?_, fun hn => by cases hn⟩
+    unfold WalkPost
+    cases sig with
+    | err e => exact hc
+    | directive d bm => exact hc
+    | endOfInput k => exact hc.elim
+  | none =>
+    simp only [hrs] at hc ⊢
+    cases htr : q.trans with
+    | none =>
+      simp only [htr, transOk] at hp ⊢
+      refine ⟨?_, fun _ _ => by rw [hstate, hst]⟩
+      simp only [WalkPost]
+      rw [hstate, hst]
+      exact h.le _ _ _ hp hc
+    | some t =>
+      simp only [htr] at hp ⊢
+      cases t with
+      | goto j =>
+        simp only [transOk] at hp
+        simp only [applyTrans]
+        refine ⟨?_, fun _ hf => by cases hf⟩
+        simp only [WalkPost]
+        exact h.le _ _ _ hp (h.frame _ _ _ hc)
+      | reconsume j =>
+        simp only [transOk] at hp
+        simp only [applyTrans]
+        split
+        · refine ⟨?_, fun hn => by cases hn⟩
+          simp [WalkPost, U2err, U2]
+        · refine ⟨?_, fun _ hf => by cases hf⟩
+          simp only [WalkPost]
+          exact h.le _ _ _ hp (h.frame _ _ _ hc)
+      | gotoDyn =>
+        simp only [transOk, List.all_eq_true] at hp
+        simp only [applyTrans]
+        refine ⟨?_, fun _ hf => by cases hf⟩
+        simp only [WalkPost]
+        exact h.le _ _ _ (hp _ (textState_mem _ _)) (h.frame _ _ _ hc)
+
 theorem runSeq_walk (h : PhInv env inp I J) (q : ActSeq) (self : StateId) (hp : seqOkP env.tbl P self q = true)
     (m : M κ) (hm : I (P.at self) m) (hst : m.c.state = self) :
     WalkPost P I J ((runSeq env inp q m).1, (runSeq env inp q m).2.1) ∧
@@ -213,52 +266,7 @@ theorem runSeq_walk (h : PhInv env inp I J) (q : ActSeq) (self : StateId) (hp : 
   | none => simp [habs] at hp
   | some ab' =>
     simp only [habs] at hp
-    have hc := runCalls_walk h q.calls _ _ habs hq m hm
-    have hstate := runCalls_state (env := env) (inp := inp) q.calls m
-    unfold runSeq
-    dsimp only
-    cases hrs : (runCalls env inp q.calls m).2 with
-    | some sig =>
-      simp only [hrs] at hc ⊢
-      refine ⟨?_, fun hn => by cases hn⟩
-      unfold WalkPost
-      cases sig with
-      | err e => exact hc
-      | directive d bm => exact hc
-      | endOfInput k => exact hc.elim
-    | none =>
-      simp only [hrs] at hc ⊢
-      cases htr : q.trans with
-      | none =>
-        simp only [htr, transOk] at hp ⊢
-        refine ⟨?_, fun _ _ => by rw [hstate, hst]⟩
-        simp only [WalkPost]
-        rw [hstate, hst]
-        exact h.le _ _ _ hp hc
-      | some t =>
-        simp only [htr] at hp ⊢
-        cases t with
-        | goto j =>
-          simp only [transOk] at hp
-          simp only [applyTrans]
-          refine ⟨?_, fun _ hf => by cases hf⟩
-          simp only [WalkPost]
-          exact h.le _ _ _ hp (h.frame _ _ _ hc)
-        | reconsume j =>
-          simp only [transOk] at hp
-          simp only [applyTrans]
-          split
-          · refine ⟨?_, fun hn => by cases hn⟩
-            simp [WalkPost, U2err, U2]
-          · refine ⟨?_, fun _ hf => by cases hf⟩
-            simp only [WalkPost]
-            exact h.le _ _ _ hp (h.frame _ _ _ hc)
-        | gotoDyn =>
-          simp only [transOk, List.all_eq_true] at hp
-          simp only [applyTrans]
-          refine ⟨?_, fun _ hf => by cases hf⟩
-          simp only [WalkPost]
-          exact h.le _ _ _ (hp _ (textState_mem _ _)) (h.frame _ _ _ hc)
+    exact runSeq_walk' h q self _ _ hq habs hp m hm hst
 
 theorem runBody_walk (h : PhInv env inp I J) (b : Body) (self : StateId) (hp : bodyOkP env.tbl P self b = true)
     (m : M κ) (hm : I (P.at self) m) (hst : m.c.state = self) :
@@ -440,14 +448,17 @@ theorem stateFn_walk (h : PhInv env inp I J) (hph : PhaseOk env.tbl P = true) (m
         · exact dispatch_walk h _ _ sd.arms harms _ (key _) hstate
       · exact dispatch_walk h _ _ sd.arms harms _ (key _) hstate
 
+/-- postcondition of a run of the parsing loop -/
+def LoopPost (P : PLabels) (I : Ab → M κ → Prop) (J : Directive → Bookmark → M κ → Prop) (r : M κ × Signal) : Prop :=
+  match r.2 with
+  | .endOfInput _ => I (P.at r.1.c.state) r.1
+  | .err e => ¬ U2err e
+  | .directive d bm => J d bm r.1
+
 theorem runLoop_walk (h : PhInv env inp I J) (hph : PhaseOk env.tbl P = true) (n : Nat) (m : M κ)
-    (hm : I (P.at m.c.state) m) :
-    match (runLoop env inp n m).2 with
-    | .endOfInput _ => I (P.at (runLoop env inp n m).1.c.state) (runLoop env inp n m).1
-    | .err e => ¬ U2err e
-    | .directive d bm => J d bm (runLoop env inp n m).1 := by
+    (hm : I (P.at m.c.state) m) : LoopPost P I J (runLoop env inp n m) := by
   induction n generalizing m with
-  | zero => simp [runLoop, U2err, U2]
+  | zero => simp [runLoop, LoopPost, U2err, U2]
   | succ n ih =>
     have h1 := stateFn_walk h hph m hm
     simp only [runLoop]
@@ -463,6 +474,23 @@ theorem runLoop_walk (h : PhInv env inp I J) (hph : PhaseOk env.tbl P = true) (n
       | err e => exact h1
       | endOfInput k => exact h1
       | directive d bm => exact h1
+
+/-- the loop after a first step whose outcome is known -/
+theorem runLoop_after (h : PhInv env inp I J) (hph : PhaseOk env.tbl P = true) (n : Nat) (m : M κ)
+    (h1 : WalkPost P I J (stateFn env inp m)) : LoopPost P I J (runLoop env inp (n + 1) m) := by
+  simp only [runLoop]
+  cases hs : (stateFn env inp m).2 with
+  | none =>
+    dsimp only
+    simp only [WalkPost, hs] at h1
+    exact runLoop_walk h hph n _ h1
+  | some sig =>
+    dsimp only
+    simp only [WalkPost, hs] at h1
+    cases sig with
+    | err e => exact h1
+    | endOfInput k => exact h1
+    | directive d bm => exact h1
 
 end
 end LolHtml.Model
